@@ -25,7 +25,7 @@ OPERATOR_DICT = {
     '<=': operator.le,
 }
 
-REGEX_CRITERIA = re.compile(r'(?P<op>[\<\>\=]*)(?P<val>.+)', re.UNICODE)
+REGEX_CRITERIA = re.compile(r'(?P<op>[\<\>\=]*)(?P<val>.+)', re.UNICODE | re.DOTALL)  # a text may hold line breaks
 
 
 def iflatten(iterable):
